@@ -159,171 +159,65 @@ pub fn __as_f64<T: ToF64>(x: T) -> (r: f64) ensures r == x.to_f64_spec() { x.__t
 // R13: identity on f64 (see rule R13 of the extractor)
 pub fn __idf(x: f64) -> (r: f64) ensures r == x { x }
 
-// ---- prelude fragment: ideal.rs ----
-// Floating point, layer 2 ("idealised real" mode of DESIGN.md 3.2): machine arithmetic treated as
-// mathematical.  rv maps a float to the real it denotes; rounding, overflow, NaN and signed zero are
-// ignored.  Used only where the property is a statement of real arithmetic.
-pub uninterp spec fn rv(x: f64) -> real;
-pub broadcast axiom fn ax_rv_add(a: f64, b: f64) ensures rv(#[trigger] fadd(a, b)) == rv(a) + rv(b);
-pub broadcast axiom fn ax_rv_sub(a: f64, b: f64) ensures rv(#[trigger] fsub(a, b)) == rv(a) - rv(b);
-pub broadcast axiom fn ax_rv_mul(a: f64, b: f64) ensures rv(#[trigger] fmul(a, b)) == rv(a) * rv(b);
-pub broadcast axiom fn ax_rv_div(a: f64, b: f64) ensures rv(b) != 0real ==> rv(#[trigger] fdiv(a, b)) == rv(a) / rv(b);
-pub broadcast axiom fn ax_rv_neg(a: f64) ensures rv(#[trigger] fneg(a)) == 0real - rv(a);
-pub broadcast axiom fn ax_rv_cmp(a: f64, b: f64)
-    ensures #[trigger] fcmp(a, b) == (if rv(a) < rv(b) { Some(core::cmp::Ordering::Less) }
-        else if rv(a) == rv(b) { Some(core::cmp::Ordering::Equal) } else { Some(core::cmp::Ordering::Greater) });
-pub broadcast axiom fn ax_rv_eq(a: f64, b: f64) ensures #[trigger] feq(a, b) == (rv(a) == rv(b));
-pub broadcast axiom fn ax_rv_max(a: f64, b: f64) ensures rv(#[trigger] fmaxf(a, b)) == (if rv(a) >= rv(b) { rv(a) } else { rv(b) });
-pub broadcast axiom fn ax_rv_min(a: f64, b: f64) ensures rv(#[trigger] fminf(a, b)) == (if rv(a) <= rv(b) { rv(a) } else { rv(b) });
-pub axiom fn ax_rv_lits()
-    ensures rv(0.0f64) == 0real, rv(1.0f64) == 1real, rv(2.0f64) == 2real, rv(0.5f64) * 2real == 1real;
-pub broadcast group ideal {
-    ax_rv_add, ax_rv_sub, ax_rv_mul, ax_rv_div, ax_rv_neg, ax_rv_cmp, ax_rv_eq, ax_rv_max, ax_rv_min
-}
-// (idealised) integer-to-float casts are exact
-pub broadcast axiom fn ax_rv_u64(n: u64) ensures rv(#[trigger] u64_to_f64(n)) == n as real;
-pub broadcast axiom fn ax_rv_usize(n: usize) ensures rv(#[trigger] usize_to_f64(n)) == n as real;
-pub broadcast group ideal_casts { ax_rv_u64, ax_rv_usize }
-
-// ---- prelude fragment: iter_ext.rs ----
-// R7: provided Iterator methods vstd does not specify, as external wrappers whose contracts restate
-// the std documentation over the iterator's remaining() sequence.
-// Iterator::reduce(f): None for an empty iterator, otherwise the left fold of f over the items.
-// (f is assumed deterministic: its postcondition determines its result -- true for fn items such as
-// f64::max whose assume_specification is an equation.)
-pub open spec fn fapply<F: Fn(f64, f64) -> f64>(f: F, a: f64, b: f64) -> f64 {
-    choose|r: f64| f.ensures((a, b), r)
-}
-pub open spec fn rfold<F: Fn(f64, f64) -> f64>(f: F, s: Seq<f64>) -> f64
-    decreases s.len()
-{
-    if s.len() <= 1 { s[0] } else { fapply(f, rfold(f, s.drop_last()), s.last()) }
-}
+#[verifier::external_body] pub struct Node { }
+#[verifier::external_body] pub struct Tables { }
+#[verifier::external_body] pub struct Cache { }
+// value returned by the recursive traversal of a subtree entered with the given reaches
+pub uninterp spec fn sub_spec(n: Node, p_chance: f64, p_player: [f64; 2]) -> f64;
 #[verifier::external_body]
-pub fn __reduce<I: Iterator<Item = f64>, F: Fn(f64, f64) -> f64>(it: I, f: F) -> (r: Option<f64>)
-    requires it.obeys_prophetic_iter_laws(),
-    ensures
-        it.remaining().len() == 0 ==> r is None,
-        it.remaining().len() > 0 ==> r == Some(rfold(f, it.remaining())),
+pub fn recurse_single(node: &Node, chance_infosets: &Tables, player_infosets: &Tables, p_chance: f64, p_player: [f64; 2]) -> (r: f64)
+    ensures r == sub_spec(*node, p_chance, p_player),
 { unimplemented!() }
-// the fn ITEMS f64::max / f64::min used as values: their call postcondition is the same equation
-// as their assume_specification (Verus does not derive this for function items by itself)
-pub axiom fn ax_fn_items()
-    ensures
-        forall|a: f64, b: f64, r: f64| #[trigger] f64::max.ensures((a, b), r) == (r == fmaxf(a, b)),
-        forall|a: f64, b: f64, r: f64| #[trigger] f64::min.ensures((a, b), r) == (r == fminf(a, b));
-// Iterator::sum over &f64 items: the left fold of `+` starting from the additive identity the
-// standard library uses (an unspecified zero constant here; its real value is 0)
-pub uninterp spec fn fsum_init() -> f64;
-pub open spec fn fsum_ref(s: Seq<&f64>, k: int) -> f64 decreases k {
-    if k <= 0 { fsum_init() } else { fadd(fsum_ref(s, k - 1), *s[k - 1]) }
-}
-pub open spec fn fsum(s: Seq<f64>, k: int) -> f64 decreases k {
-    if k <= 0 { fsum_init() } else { fadd(fsum(s, k - 1), s[k - 1]) }
-}
 #[verifier::external_body]
-pub fn __sum<'a, I: Iterator<Item = &'a f64>>(it: I) -> (r: f64)
-    requires it.obeys_prophetic_iter_laws(),
-    ensures r == fsum_ref(it.remaining(), it.remaining().len() as int),
+pub fn recurse_multi(node: &Node, chance_infosets: &Tables, player_infosets: &Tables, p_chance: f64, p_player: [f64; 2], cached: &Cache) -> (r: f64)
+    ensures r == sub_spec(*node, p_chance, p_player),
 { unimplemented!() }
-// summing references to the elements of a sequence is summing the sequence (fires automatically)
-pub broadcast proof fn lemma_fsum_ref_is_fsum(rem: Seq<&f64>, s: Seq<f64>, k: int)
-    requires 0 <= k <= rem.len(), k <= s.len(), forall|i: int| 0 <= i < k ==> *rem[i] == s[i],
-    ensures #![trigger fsum_ref(rem, k), fsum(s, k)] fsum_ref(rem, k) == fsum(s, k),
-    decreases k
-{
-    if k > 0 { lemma_fsum_ref_is_fsum(rem, s, k - 1); }
-}
 
-// ---- prelude fragment: iter_ext_ideal.rs ----
-// (idealised) the additive identity Iterator::sum starts from denotes 0
-pub axiom fn ax_rv_sum_init() ensures rv(fsum_init()) == 0real;
-
-pub assume_specification<T: Clone> [<[T]>::fill] (s: &mut [T], v: T)
-    ensures final(s)@.len() == old(s)@.len(), forall|i: int| 0 <= i < old(s)@.len() ==> #[trigger] final(s)@[i] == v;
-
-// sums of idealised values and the normalisation lemmas shared by avg_strat / import / truncate units
-pub open spec fn rsum(s: Seq<f64>, k: int) -> real decreases k {
-    if k <= 0 { 0real } else { rsum(s, k - 1) + rv(s[k - 1]) }
-}
-pub proof fn lemma_fsum_rsum(s: Seq<f64>, k: int)
-    requires 0 <= k <= s.len(),
-    ensures rv(fsum(s, k)) == rsum(s, k),
-    decreases k
-{
-    broadcast use ideal;
-    ax_rv_sum_init();
-    if k > 0 { lemma_fsum_rsum(s, k - 1); }
-}
-// sum of x_i / n over the first k entries equals (sum of x_i) / n
-pub proof fn lemma_rsum_div(a: Seq<f64>, b: Seq<f64>, n: real, k: int)
-    requires 0 <= k <= a.len(), a.len() == b.len(), n != 0real, forall|i: int| 0 <= i < a.len() ==> rv(#[trigger] b[i]) == rv(a[i]) / n,
-    ensures rsum(b, k) == rsum(a, k) / n,
-    decreases k
-{
-    if k <= 0 {
-        assert(0real / n == 0real) by(nonlinear_arith) requires n != 0real;
-    } else {
-        lemma_rsum_div(a, b, n, k - 1);
-        assert(rv(b[k - 1]) == rv(a[k - 1]) / n);
-        assert(rsum(b, k) == rsum(b, k - 1) + rv(b[k - 1]));
-        assert(rsum(a, k) == rsum(a, k - 1) + rv(a[k - 1]));
-        assert(rsum(a, k - 1) / n + rv(a[k - 1]) / n == (rsum(a, k - 1) + rv(a[k - 1])) / n) by(nonlinear_arith) requires n != 0real;
-    }
-}
-
-// ---- extracted from src/solve/data.rs: fn avg_strat ----
-pub fn avg_strat(cum_strat: &mut [f64]) 
-    requires
-        old(cum_strat)@.len() >= 1,
+// ---- extracted from src/solve/vanilla.rs: fn recurse_single ----
+pub fn recurse_single__chance_outcome(prob: &f64, next: &Node, mut expected: f64, p_chance: f64, p_player: [f64; 2], chance_infosets: &Tables, player_infosets: &Tables) -> (out: f64)
     ensures
-        final(cum_strat)@.len() == old(cum_strat)@.len(),
-        // nothing accumulated: exactly uniform
-        rsum(old(cum_strat)@, old(cum_strat)@.len() as int) == 0real ==>
-            forall|i: int| 0 <= i < old(cum_strat)@.len() ==> rv(#[trigger] final(cum_strat)@[i]) == 1real / (old(cum_strat)@.len() as real), // @ob C05.V.avg_strat.uniform_when_empty
-        // otherwise every entry is divided by the total ...
-        rsum(old(cum_strat)@, old(cum_strat)@.len() as int) != 0real ==>
-            forall|i: int| 0 <= i < old(cum_strat)@.len() ==> rv(#[trigger] final(cum_strat)@[i]) == rv(old(cum_strat)@[i]) / rsum(old(cum_strat)@, old(cum_strat)@.len() as int), // @ob C05.V.avg_strat.normalised
-        // ... so the returned action probabilities sum to one
-        rsum(old(cum_strat)@, old(cum_strat)@.len() as int) != 0real ==> rsum(final(cum_strat)@, old(cum_strat)@.len() as int) == 1real, // @ob C05.V.avg_strat.sums_to_one
+        // the outcome's subtree is visited with the chance reach of ITS path (parent reach x outcome
+        // probability) and unchanged player reaches; its payoff enters the expectation weighted by the
+        // outcome probability
+        out == fadd(expected, fmul(*prob, sub_spec(*next, fmul(p_chance, *prob), p_player))), // @ob C08.V.chance_reach.product_along_path
 {
-broadcast use fl; broadcast use ideal;
-proof { ax_obeys(); ax_rv_lits(); ax_rv_sum_init(); }
-broadcast use ideal_casts;
-let ghost s0 = cum_strat@;
-let ghost n = cum_strat@.len();
-proof { lemma_fsum_rsum(s0, n as int); }
-broadcast use lemma_fsum_ref_is_fsum;
+broadcast use fl;
+proof { ax_obeys(); }
 
-    let norm: f64 = __sum(cum_strat.iter());
-    if norm == 0.0 {
-        cum_strat.fill(1.0 / __as_f64(cum_strat.len()));
-    } else {
-        proof {
-    broadcast use lemma_fsum_ref_is_fsum;
-    assert(fsum(s0, n as int) == fsum(s0, n as int));
-    assert(norm == fsum(s0, n as int));
-}
-for prob in it: cum_strat.iter_mut() 
-invariant
-    it.snapshot@.remaining().len() == n, 0 <= it.index@ <= n,
-    forall|i: int| 0 <= i < n ==> *(#[trigger] it.snapshot@.remaining()[i]) == s0[i],
-    rv(norm) == rsum(s0, n as int), rv(norm) != 0real,
-    forall|i: int| 0 <= i < it.index@ ==> rv(*final(#[trigger] it.snapshot@.remaining()[i])) == rv(s0[i]) / rv(norm),
-ensures
-    forall|i: int| 0 <= i < n ==> rv(*final(#[trigger] it.snapshot@.remaining()[i])) == rv(s0[i]) / rv(norm),
-{
-broadcast use fl; broadcast use ideal;
-proof { ax_obeys(); ax_rv_lits(); }
-
-            *prob = *prob / ( norm);
-        }
-proof {
-    lemma_rsum_div(s0, cum_strat@, rv(norm), n as int);
-    assert(rsum(s0, n as int) / rv(norm) == 1real) by(nonlinear_arith) requires rv(norm) == rsum(s0, n as int), rv(norm) != 0real;
+                let payoff = recurse_single(
+                    next,
+                    chance_infosets,
+                    player_infosets,
+                    p_chance * prob,
+                    p_player,
+                );
+                expected = expected + ( prob * payoff);
+            
+expected
 }
 
-    }
+// ---- extracted from src/solve/vanilla.rs: fn recurse_multi ----
+pub fn recurse_multi__chance_outcome(prob: &f64, next: &Node, mut expected: f64, p_chance: f64, p_player: [f64; 2], chance_infosets: &Tables, player_infosets: &Tables, cached: &Cache) -> (out: f64)
+    ensures
+        // the outcome's subtree is visited with the chance reach of ITS path (parent reach x outcome
+        // probability) and unchanged player reaches; its payoff enters the expectation weighted by the
+        // outcome probability
+        out == fadd(expected, fmul(*prob, sub_spec(*next, fmul(p_chance, *prob), p_player))), // @ob C08.V.chance_reach.product_along_path
+{
+broadcast use fl;
+proof { ax_obeys(); }
+
+                    let payoff = recurse_multi(
+                        next,
+                        chance_infosets,
+                        player_infosets,
+                        p_chance * prob,
+                        p_player,
+                        cached,
+                    );
+                    expected = expected + ( prob * payoff);
+                
+expected
 }
 
 
@@ -331,7 +225,7 @@ proof {
 pub proof fn __canary_must_fail()
     ensures false, // @ob __canary
 {
-    broadcast use fl; broadcast use ideal; ax_obeys(); ax_rv_lits(); ax_rv_sum_init();
+    broadcast use fl; ax_obeys();
 }
 
 } // verus!
